@@ -599,7 +599,7 @@ fn drive_fsa(a: &Args, tr: &mut Tracer, per_subject: &mut serde_json::Map<String
                     let live = |cache: &FsaCache, issued: &[u32]| -> Value {
                         Value::Array(issued.iter().filter_map(|&id| cache.get_state(id).map(|s| json!([id, s.child_base, s.parent(), s.is_terminal()]))).collect())
                     };
-                    let mut make = |cache: &mut FsaCache, issued: &mut Vec<u32>, evs: &mut Vec<Value>, n: u32| -> Option<u32> {
+                    let make = |cache: &mut FsaCache, issued: &mut Vec<u32>, evs: &mut Vec<Value>, n: u32| -> Option<u32> {
                         match cache.cache_state(n, 100 + n, n % 2 == 0) {
                             Ok(id) => {
                                 if !issued.contains(&id) {
